@@ -1290,12 +1290,15 @@ def zapp(env, sym, zx, args, kwargs):
 
 
 def hist_config(p):
-    return f"history {p['kind']} initial={p['init']} operations={p['L']}" + (f" prefix={p['prefix']}" if p.get("prefix") else "")
+    return f"history {p['kind']} initial={p['init']} operations={p['L']}" + (f" prefix={p['prefix']}" if p.get("prefix") else "") + (" with duplicate stage objects" if p.get("dups") else "")
 
 
 def hist_structures(p):
     pre = p.get("prefix", "")
     rest = p["L"] - len(pre)
+    if p.get("dups"):
+        # 'D' adds the SAME stage object as the stage with identity 1 once more (duplicate object in the pipeline)
+        return [pre + "".join(t) for t in itertools.product("ADR", repeat=rest) if "D" in t and "R" in t]
     return [pre + "".join(t) for t in itertools.product("AR", repeat=rest)]
 
 
@@ -1341,6 +1344,9 @@ def list_model(init, ops, idx, cap, off=0):
             M = [z3.If(ln == j, nxt, M[j]) for j in range(cap)]
             ln = ln + 1
             nxt += 1
+        elif o == "D":
+            M = [z3.If(ln == j, 1, M[j]) for j in range(cap)]
+            ln = ln + 1
         else:
             i = idx[r] + off
             r += 1
@@ -1359,7 +1365,7 @@ def fam_hist_one(p, ops, classes=None):
     x = Tok(var("x"))
     args, kwargs = sym_extras(p["ashape"])
     nrem = ops.count("R")
-    nadd = ops.count("A")
+    nadd = ops.count("A") + ops.count("D")
     cap = init + nadd
     ids = list(range(1, cap + 1))
     zi = [z3.Int(f"i{r}") for r in range(nrem)]
@@ -1380,7 +1386,8 @@ def fam_hist_one(p, ops, classes=None):
 
     def run(engine):
         rec = euf.Recorder()
-        model, add, names = hist_build(kind, init, lambda ident: euf.make_stage(f"f{ident}", rec, "plain"), classes)
+        objs = {}
+        model, add, names = hist_build(kind, init, lambda ident: objs.setdefault(ident, euf.make_stage(f"f{ident}", rec, "plain")), classes)
         nxt = init + 1
         r = 0
         errs = []
@@ -1388,6 +1395,8 @@ def fam_hist_one(p, ops, classes=None):
             if o == "A":
                 add(nxt)
                 nxt += 1
+            elif o == "D":
+                add(1)          # the same object as stage 1 (objs caches it)
             else:
                 si = euf.SymInt(f"i{r}", engine, env)
                 r += 1
@@ -1481,7 +1490,8 @@ def replay_hist(w, classes=None):
     idx = list(w["indices"])
     log = RecLog()
     args, kwargs = conc_extras(p["ashape"])
-    model, add, names = hist_build(kind, init, lambda ident: RecStage(f"f{ident}", log), classes)
+    objs = {}
+    model, add, names = hist_build(kind, init, lambda ident: objs.setdefault(ident, RecStage(f"f{ident}", log)), classes)
     ref = list(range(1, init + 1))
     nxt = init + 1
     errs, ref_errs = [], []
@@ -1491,6 +1501,9 @@ def replay_hist(w, classes=None):
             add(nxt)
             ref.append(nxt)
             nxt += 1
+        elif o == "D":
+            add(1)
+            ref.append(1)
         else:
             i = idx[r]
             r += 1
@@ -1813,6 +1826,11 @@ def work(item):
                 rp = rep(dict(flagged[0]["witness"], expect_violation=True), classes) if flagged else None
                 ok = bool(flagged) and bool(rp and rp["reproduced"])
                 what = "" if ok else ("SILENT MUTANT: the check did not flag it" if not flagged else f"mutant flagged by the solver but the replay on the mutated class does not reproduce: {rp}")
+            except LookupError as e:
+                # the source line the in-memory mutant rewrites is not there (the method was edited): the self-test cannot be
+                # built on this tree; that says nothing about the property, so it is reported as an open stretch item
+                out.append(ob(f"selftest.mutant:{item['family']}", name, "inconclusive", what=f"self-test mutant not applicable to this source: {e}", stretch=True, **_stats(True)))
+                return out
             except Exception as e:  # noqa
                 ok, what, flagged = False, f"mutant self-test crashed: {type(e).__name__}: {e}", []
             out.append(ob(f"selftest.mutant:{item['family']}", name, "holds" if ok else "error", what=what,
@@ -1908,6 +1926,11 @@ def build_items():
                 plen = 2 if L <= 5 else 3
                 for pre in itertools.product("AR", repeat=plen):
                     add("hist", [dict(kind=kind, init=init, L=L, ashape=(L + init) % 4, prefix="".join(pre))])
+    # histories in which the same stage object sits at several positions (remove by position, not by value)
+    for kind in ("Configurable", "Sequential"):
+        for init in (1, 2):
+            for L in tier((2, 3), (2, 3, 4)):
+                add("hist", [dict(kind=kind, init=init, L=L, ashape=(L + init) % 4, dups=True)])
     # ---- must-fail twins -----------------------------------------------------------------------------------------
     twins = {
         "seq": dict(kind="Sequential", n=4, stage="plain", ashape=2),
